@@ -264,6 +264,13 @@ func (t *textReader) nextBeforeTypeAnnotations() (bool, error) {
 			return false, nil
 		}
 
+		if tok == tokenSymbol && val == "$ion_1_0" && t.ctx.peek() == ctxAtTopLevel && len(t.annotations) == 0 {
+			// An unquoted, unannotated $ion_1_0 at the top level is an Ion version marker:
+			// it resets the symbol table to the system table and is not a user value.
+			t.lst = V1SystemSymbolTable
+			return false, nil
+		}
+
 		if tok == tokenSymbolQuoted {
 			t.value = &SymbolToken{Text: &val, LocalSID: SymbolIDUnknown}
 			t.valueType = SymbolType
